@@ -55,7 +55,9 @@ func ProcessCallback(
 	}()
 
 	err = callbackExecutor(cachedCtx)
-	if err == nil {
+	// NOTE: an executor that went past the gas limit without panicking (e.g. it recovered the
+	// out of gas panic itself) is treated as out of gas below, its state changes must not be written.
+	if err == nil && !cachedCtx.GasMeter().IsPastLimit() {
 		writeFn()
 	}
 
